@@ -189,8 +189,17 @@ pub fn compile(rules: &[RuleSpec]) -> Result<yara_x::Rules, String> {
         let src = if id == 0 { format!("import \"test_proto2\"\nimport \"time\"\n{}", rule_source(id, r)) } else { rule_source(id, r) };
         c.add_source(src.as_str()).map_err(|e| e.to_string())?;
     }
-    Ok(c.build())
+    let rules = c.build();
+    // every fourth rule set goes through serialize + deserialize: the results of deserialized rules
+    // must be as consistent as those of freshly built ones
+    if rules_roundtrip(rules.iter().count()) {
+        let blob = rules.serialize().map_err(|e| e.to_string())?;
+        return yara_x::Rules::deserialize(&blob).map_err(|e| e.to_string());
+    }
+    Ok(rules)
 }
+
+pub fn rules_roundtrip(n_rules: usize) -> bool { n_rules % 4 == 1 }
 
 pub fn full_source(rules: &[RuleSpec]) -> String {
     let mut s = String::new();
@@ -257,6 +266,7 @@ pub fn run(args: &[String]) -> i32 {
         if rules.iter().any(|r| matches!(r.cond, Cond::Ref { .. })) { stats.inc("has_rule_reference"); }
         if rules.iter().any(|r| r.pats.iter().any(|p| p.0)) { stats.inc("has_private_pattern"); }
         if block_mode { stats.inc("block_mode"); }
+        if rules_roundtrip(rules.len()) { stats.inc("deserialized_rules"); }
         if obs.m.iter().chain(obs.nm.iter()).any(|t| t.is_none()) { stats.inc("impl_iterator_panicked"); }
         if rules.len() >= 2 { distinct.insert(format!("{:?}", rules)); }
 
